@@ -21,7 +21,7 @@ func init() {
 func c08Scenarios(cfg runCfg) []Scenario {
 	var out []Scenario
 	i := 0
-	for j := 0; j < cfg.n(2000, 20); j++ {
+	for j := 0; j < cfg.n(2000, 80); j++ {
 		if cfg.mine(i) {
 			fam := "machine"
 			switch mix(cfg.seed, 808, uint64(j)) % 10 {
